@@ -4,6 +4,7 @@
 # Prints one line per check: "<PROP> rc=<rc> <first VIOLATION/INCONCLUSIVE line>".
 patch=$(realpath "$1"); tier=$2; shift 2
 cd "$(dirname "$0")/.."
+export VERIF_EVIDENCE_DIR=$PWD/build/evidence-scratch
 if ! git -C /repo diff --quiet; then echo "/repo has uncommitted changes; refusing" >&2; exit 2; fi
 git -C /repo apply "$patch" || { echo "patch does not apply" >&2; exit 2; }
 trap 'git -C /repo checkout -- . ' EXIT
